@@ -3,16 +3,17 @@ import RgVerif.Lemmas.LineBufferProgress
 /-
 One `consume(c); fill()` of the roll buffer when `Core::roll` keeps context (`c` may be less than
 the window): the next window of the input starts `c` bytes further, never ends earlier, and ends at
-the same place only at the end of the input.
+the same place only at the end of the input -- or, under a heap limit, the allocation fails.
 -/
 namespace RgVerif.Searcher
 open RgVerif RgVerif.Lines
 
 open RgVerif.LineBuffer in
 theorem lb_stepC {lbcfg : LineBuffer.Config} {inp : Bytes} {lb : LB} {rdr : Reader} {a mm rest : Bytes}
-    (hI : LineBuffer.Inv lbcfg inp lb rdr a mm rest) (hb : lbcfg.binary = .none) (hal : lbcfg.alloc = .eager)
+    (hI : LineBuffer.Inv lbcfg inp lb rdr a mm rest) (hb : lbcfg.binary = .none)
     (hz : NoZero rdr.script) (c : Nat) (hc : c ≤ lb.buffer.length) :
     ∃ lb1, lb.consume c = some lb1 ∧
+      (((lb1.fill rdr).2.2 = .allocErr ∧ lbcfg.alloc ≠ .eager) ∨
       ∃ more a' m' rest', (lb1.fill rdr).2.2 = .ok more ∧ more = (!(lb1.fill rdr).1.buffer.isEmpty) ∧
         LineBuffer.Inv lbcfg inp (lb1.fill rdr).1 (lb1.fill rdr).2.1 a' m' rest' ∧
         (lb1.fill rdr).1.abs = lb.abs + c ∧
@@ -23,7 +24,7 @@ theorem lb_stepC {lbcfg : LineBuffer.Config} {inp : Bytes} {lb : LB} {rdr : Read
           (lb1.fill rdr).1.abs + (lb1.fill rdr).1.buffer.length = inp.length) ∧
         lb.buffer.length - c ≤ (lb1.fill rdr).1.buffer.length ∧
         ((lb1.fill rdr).1.buffer.length = lb.buffer.length - c →
-          (lb1.fill rdr).1.abs + (lb1.fill rdr).1.buffer.length = inp.length) := by
+          (lb1.fill rdr).1.abs + (lb1.fill rdr).1.buffer.length = inp.length)) := by
   have hcons : lb.consume c = some { lb with pos := lb.pos + c, abs := lb.abs + c } := by
     unfold LB.consume; simp [hc]
   refine ⟨_, hcons, ?_⟩
@@ -50,7 +51,7 @@ theorem lb_stepC {lbcfg : LineBuffer.Config} {inp : Bytes} {lb : LB} {rdr : Read
     rw [hres] at hpost
     have : (lb1.fill rdr).1.cfg.alloc ≠ .eager := hpost
     rw [hcfg2] at this
-    exact absurd hal this
+    exact Or.inl ⟨rfl, this⟩
   | fuel => rw [hres] at hpost; exact absurd hpost (by simp [FillPost])
   | ok more =>
     rw [hres] at hpost
@@ -99,7 +100,7 @@ theorem lb_stepC {lbcfg : LineBuffer.Config} {inp : Bytes} {lb : LB} {rdr : Read
     have hprog := fill_progress_window lb1 rdr (by rw [hI1.hcfg]; exact hb) hI1.hlen hI1.hpos hI1.hlast more hres
     have hbl0 := hI.buffer_len
     have hbl1 := hI1.buffer_len
-    refine ⟨more, _, m', rest', rfl, p1, hI2, by rw [habs, habs1], hbin, fill_noZero lb1 rdr hz, hwin, hle, ?_, ?_, ?_⟩
+    refine Or.inr ⟨more, _, m', rest', rfl, p1, hI2, by rw [habs, habs1], hbin, fill_noZero lb1 rdr hz, hwin, hle, ?_, ?_, ?_⟩
     · cases p2 with
       | inr pB =>
         left
